@@ -189,6 +189,7 @@ func init() {
 		}
 		c17Provider(c)
 		c17RemovedFirst(c)
+		c17OrderAndDrain(c)
 		c.usubRule("catch-up-bounds", func(fn *ssa.Function) bool {
 			return pkgRelOf(fn) == "l1" && strings.HasSuffix(p.File(fnPos(fn)), "/l1.go")
 		}, nil)
@@ -322,4 +323,112 @@ func c17RemovedFirst(c *Ctx) {
 		}
 	})
 	c.check(del, "removed-first", "applyStateUpdate: removal arm", p.Pos(fnPos(f)), "deletes every buffered entry at or above the removed L1 height", "the removal arm no longer deletes the buffered entries at or above the removed height")
+}
+
+// c17OrderAndDrain: (apply-in-order) the buffer is keyed by L1 block and the last writer wins, so logs are applied in the
+// order the L1 node delivered them (ascending): every loop that feeds applyStateUpdate from a slice is a plain forward range
+// without early exit; (drain-after-close) the historical-log filter returns only after a non-blocking drain of the log
+// channel — geth's FilterLogs closes Err() when it has shipped everything but never closes the channel, so logs can still be
+// buffered when Err() becomes ready.
+func c17OrderAndDrain(c *Ctx) {
+	p := c.P
+	ap := p.Func("l1", "Client", "applyStateUpdate")
+	if ap == nil {
+		c.und("apply-in-order", "Client.applyStateUpdate", "", "anchor not found")
+	} else {
+		n := 0
+		for _, s := range p.callersOf(ap) {
+			fn := s.Instr.Parent()
+			if !inSameLoop(s.Block(), s.Block()) {
+				continue
+			}
+			arg := s.Args()[len(s.Args())-1]
+			ld, isLoad := arg.(*ssa.UnOp)
+			if !isLoad {
+				continue // not fed from a slice (e.g. channel receive loop)
+			}
+			ia, isIdx := ld.X.(*ssa.IndexAddr)
+			if !isIdx {
+				continue
+			}
+			n++
+			fwd := isRangeIndex(ia.Index)
+			// no early exit: every block of the loop other than its header stays inside the loop
+			var header *ssa.BasicBlock
+			for d := s.Block(); d != nil; d = d.Idom() {
+				if d.Comment == "rangeindex.loop" && inSameLoop(d, s.Block()) {
+					header = d
+					break
+				}
+			}
+			noExit := header != nil
+			if header != nil {
+				// natural loop of the header's back edges
+				body := map[*ssa.BasicBlock]bool{header: true}
+				var stack []*ssa.BasicBlock
+				for _, pr := range header.Preds {
+					if header.Dominates(pr) && !body[pr] {
+						body[pr] = true
+						stack = append(stack, pr)
+					}
+				}
+				for len(stack) > 0 {
+					b := stack[len(stack)-1]
+					stack = stack[:len(stack)-1]
+					for _, pr := range b.Preds {
+						if !body[pr] {
+							body[pr] = true
+							stack = append(stack, pr)
+						}
+					}
+				}
+				for b := range body {
+					if b == header {
+						continue
+					}
+					for _, succ := range b.Succs {
+						if !body[succ] {
+							noExit = false
+						}
+					}
+				}
+			}
+			c.check(fwd && noExit, "apply-in-order", qname(fn)+" → applyStateUpdate over a slice", p.Pos(s.Pos()), "forward range over the delivered logs, no early exit", "the logs of a chunk are not applied front to back to the end (forward range: "+fmt.Sprint(fwd)+", no early exit: "+fmt.Sprint(noExit)+"): with several state updates in one L1 block the earliest instead of the latest survives in the buffer and is later recorded as the L1 head")
+		}
+		if n == 0 {
+			c.und("apply-in-order", "applyStateUpdate callers", "", "no slice-fed loop calling applyStateUpdate found")
+		}
+	}
+	f := p.Func("l1/geth/contract", "StarknetFilterer", "FilterLogStateUpdate")
+	if f == nil {
+		c.und("drain-after-close", "StarknetFilterer.FilterLogStateUpdate", "", "anchor not found")
+		return
+	}
+	var drains []*ssa.Select
+	allInstrs(f, func(in ssa.Instruction) {
+		if sel, ok := in.(*ssa.Select); ok && !sel.Blocking {
+			for _, st := range sel.States {
+				if st.Dir == types.RecvOnly && strings.Contains(term(st.Chan), "FilterLogs(") {
+					drains = append(drains, sel)
+				}
+			}
+		}
+	})
+	n := 0
+	for _, ret := range returnsOf(f) {
+		if !isNilConst(ret.Results[1]) {
+			continue
+		}
+		n++
+		ok := false
+		for _, d := range drains {
+			if dominatesInstr(d, ret.Ret) {
+				ok = true
+			}
+		}
+		c.check(ok, "drain-after-close", "FilterLogStateUpdate: success return", p.Pos(posOf(ret.Ret, f)), "reached only through a non-blocking drain of the log channel", "the filter returns as soon as the subscription's Err() is ready, without draining the log channel: a random tail of each chunk — its newest events — is lost and catch-up commits an older state update than the highest finalised one")
+	}
+	if n == 0 {
+		c.und("drain-after-close", "FilterLogStateUpdate", p.Pos(fnPos(f)), "no success return found")
+	}
 }
